@@ -121,8 +121,11 @@ func safeBuild(d *SDef) (bt *built, s *schema.Schema, err error) {
 // has a default to its real type and configured Go value.
 type confDefault struct {
 	Typ  schema.Type
-	Conf interface{}
+	Conf interface{} // the configured Go value
 	Val  Val
+	// Want: what the printed literal must coerce back to = the configured value in coercion normal
+	// form (equal to Conf unless the configured value omits input-object fields that have defaults)
+	Want interface{}
 }
 
 func configuredDefaults(bt *built) map[string]confDefault {
@@ -130,7 +133,8 @@ func configuredDefaults(bt *built) map[string]confDefault {
 	d := bt.sdef
 	add := func(path string, iv InputVal, def *schema.InputValueDefinition) {
 		if iv.Def != nil && def != nil {
-			out[path] = confDefault{Typ: def.Type, Conf: def.DefaultValue, Val: *iv.Def}
+			nb := &builder{d: d, out: bt}
+			out[path] = confDefault{Typ: def.Type, Conf: def.DefaultValue, Val: *iv.Def, Want: nb.goValue(normalForm(d, *iv.Def, iv.Type), iv.Type, true)}
 		}
 	}
 	for _, t := range d.Types {
@@ -257,7 +261,7 @@ func (h *harness) runCase(c *Case) (fails []failure, rejected bool) {
 					fail(*f)
 				}
 			}
-			if prob := roundTrip(text, cd.Typ, cd.Conf); prob != "" {
+			if prob := roundTrip(text, cd.Typ, cd.Want); prob != "" {
 				f := failure{Part: "defaults", Kind: "property", Class: "default-roundtrip", What: p + ": " + prob}
 				if hasAstral(cd.Val) && h.astralOnly(c, p) {
 					f.Finding = "F-10b-astral-default-string-printed-raw"
@@ -358,7 +362,7 @@ func (h *harness) astralOnly(c *Case, path string) bool {
 			text = *iv.Default
 		}
 	})
-	return roundTrip(text, cd.Typ, cd.Conf) == ""
+	return roundTrip(text, cd.Typ, cd.Want) == ""
 }
 
 // ---- rebuild ---------------------------------------------------------------------------------
@@ -384,18 +388,45 @@ func (h *harness) docsFor(c *Case) ([]string, []string) {
 func (h *harness) rebuildPart(c *Case, bt *built, s *schema.Schema, data []byte, intro *IntroD) (fails []failure) {
 	// the schema is rebuilt from the result as delivered and from the same result with every list of
 	// named members in ascending and in descending name order (list order is arbitrary)
+	// … and each of them several times: GetSchemaDefinition iterates over Go maps internally, and a
+	// rebuilt definition must not depend on that order either. Repeats that give the same definition
+	// (always, on a deterministic implementation) are evaluated once.
 	type variant struct {
 		order string
 		data  []byte
 		s     *schema.Schema
+		def   *schema.SchemaDefinition
 	}
-	variants := []*variant{{order: "as delivered", data: data}, {order: "ascending", data: reorderIntro(data, false)}, {order: "descending", data: reorderIntro(data, true)}}
-	for _, v := range variants {
-		s2, err := rebuildSchema(v.data)
-		if err != nil {
-			return []failure{{Part: "rebuild", Kind: "property", Class: "rebuild-fails", What: "a schema cannot be rebuilt from the introspection result (lists " + v.order + "): " + err.Error()}}
+	const repeats = 8
+	var variants []*variant
+	for oi, o := range []struct {
+		order string
+		data  []byte
+	}{{"as delivered", data}, {"ascending", reorderIntro(data, false)}, {"descending", reorderIntro(data, true)}} {
+		seen := map[string]bool{}
+		for rep := 0; rep < repeats; rep++ {
+			s2, def2, err := rebuildSchemaDef(o.data)
+			if err != nil {
+				return []failure{{Part: "rebuild", Kind: "property", Class: "rebuild-fails", What: "a schema cannot be rebuilt from the introspection result (lists " + o.order + "): " + err.Error()}}
+			}
+			key := ""
+			if x, err := extract(def2, newIDAlloc(1)); err == nil {
+				key = eraseIDs(x).String()
+			} else {
+				key = fmt.Sprintf("unextractable %d: %v", rep, err)
+			}
+			if seen[key] {
+				continue
+			}
+			seen[key] = true
+			name := o.order
+			if len(seen) > 1 {
+				name = fmt.Sprintf("%s, rebuild no. %d gives a different definition than the first", o.order, rep+1)
+				h.count("rebuild:nondeterministic-rebuilds")
+			}
+			variants = append(variants, &variant{order: name, data: o.data, s: s2, def: def2})
 		}
-		v.s = s2
+		_ = oi
 	}
 	h.count("rebuild:schemas")
 	allF := schema.NewFeatureSet(c.S.allFeatures()...)
@@ -431,8 +462,11 @@ func (h *harness) rebuildPart(c *Case, bt *built, s *schema.Schema, data []byte,
 	if h.model != nil && !h.quiet {
 		// the model's rebuilt definition does not depend on list order: compared with the
 		// implementation's for the result as delivered and for the descending order
-		for _, vr := range []*variant{variants[0], variants[2]} {
-			if f := h.tieRebuild(bt, s, vr.data, vr != variants[0]); f != nil {
+		for _, vr := range variants {
+			if strings.HasPrefix(vr.order, "ascending") && vr.order == "ascending" {
+				continue // same definition as "descending" on a deterministic implementation; the repeats are still compared
+			}
+			if f := h.tieRebuild(bt, s, vr.def, vr.order != "as delivered"); f != nil {
 				f.What = "(lists " + vr.order + ") " + f.What
 				f.NoInput = unexplained(fails) == 0
 				if f.NoInput {
